@@ -163,7 +163,7 @@ __CPROVER_ensures(add_term_post(__CPROVER_old(self->data), self->data, self->is_
  * transitive -- into another like element), never stored as a separate term */
 __CPROVER_ensures((__CPROVER_old(self->data.ghas) && term_like(self->data.comp, __CPROVER_old(self->data.gval), term)) ==> self->data.find_kind != OSG_END)
 //@end
-//@harness h_TermList_add_term enforce=TermListGF_add_term props=C01 min_obl=944 reach=6 timeout=600
+//@harness h_TermList_add_term enforce=TermListGF_add_term props=C01,C02,C14 min_obl=944 reach=6 timeout=600
 void h_TermList_add_term(void)
 {
   TermListGF *tl; GFTerm t;
